@@ -447,6 +447,16 @@ int _dbus_poll (DBusPollFD *fds,
 DBUS_PRIVATE_EXPORT
 void _dbus_sleep_milliseconds (int milliseconds);
 
+#ifdef DBUS_VERIF_HOOKS
+/* Verification hooks (virtual monotonic clock), see dbus-sysdeps-unix.c */
+DBUS_PRIVATE_EXPORT
+extern int _dbus_verif_clock_active;
+DBUS_PRIVATE_EXPORT
+void _dbus_verif_clock_set (int active, long sec, long usec);
+DBUS_PRIVATE_EXPORT
+void _dbus_verif_clock_advance_ms (long ms);
+#endif
+
 DBUS_PRIVATE_EXPORT
 void _dbus_get_monotonic_time (long *tv_sec,
                                long *tv_usec);
